@@ -20,7 +20,7 @@ type streamVariant struct {
 
 var reLoopLine = regexp.MustCompile(`(?m)^\s*for .*\{\s*$`)
 
-func streamCaptures(calls []string) string {
+func streamCaptures(calls []string, counter bool) string {
 	var b strings.Builder
 	for _, c := range calls {
 		res := "callresult1"
@@ -29,8 +29,18 @@ func streamCaptures(calls []string) string {
 			res = "callresult"
 		}
 		fmt.Fprintf(&b, "//@ cut after call %s #*\n//@ + ghost failed = failed || !isnil(%s)\n", c, res)
+		if counter && (c == "ReadFull" || c == "io.Writer.Write") {
+			// the byte counter of the stream grows by exactly what the reader / writer reported
+			b.WriteString("//@ + ghost total = total + callresult0\n")
+		}
 	}
 	return b.String()
+}
+
+// loop-free variants also carry the byte counter: Decoder.n / Encoder.n grows by exactly the counts that the reads
+// / writes reported (no overflow: the counter starts below 2^62 and a single item adds a few hundred bytes)
+func streamCounter(label string) bool {
+	return strings.HasSuffix(label, "-element") || strings.HasSuffix(label, "-point")
 }
 
 func streamLoops(n int) string {
@@ -90,6 +100,17 @@ func genStream(srcRoot, rel string) string {
 
 package %s
 
+//@ func io.ReadFull
+//@ assumed io.ReadFull (standard library): copies into buf from the reader and reports how many bytes it copied, at most len(buf), and exactly len(buf) when it returns no error
+//@ ensures 0 <= result0 && result0 <= len(buf) && (isnil(result1) ==> result0 == len(buf))
+//@ modifies buf
+//@ end
+
+//@ func (io.Writer).Write
+//@ assumed interface io.Writer: Write reports how many bytes of p it wrote, at most len(p), and returns an error when it wrote fewer; it neither keeps nor changes p
+//@ ensures 0 <= result0 && result0 <= len(p) && (isnil(result1) ==> result0 == len(p))
+//@ end
+
 `, pn)
 	dec := []streamVariant{
 		{"u64-matrix", "*[][]uint64", []string{"readUint32", "readUint64"}, true},
@@ -115,9 +136,16 @@ package %s
 			out.WriteString("//@ option index-panics-allowed\n")
 		}
 		out.WriteString("//@ ghost failed = false\n")
-		out.WriteString(streamCaptures(sv.calls))
+		if streamCounter(sv.label) {
+			out.WriteString("//@ requires 0 <= dec.n && dec.n <= 4611686018427387904\n//@ ghost total = 0\n")
+		}
+		out.WriteString(streamCaptures(sv.calls, streamCounter(sv.label)))
 		out.WriteString(streamLoops(nDec))
-		out.WriteString("//@ ensures[no-hidden-error] isnil(err) ==> !failed\n//@ modifies dec, v\n//@ end\n\n")
+		out.WriteString("//@ ensures[no-hidden-error] isnil(err) ==> !failed\n")
+		if streamCounter(sv.label) {
+			out.WriteString("//@ ensures[byte-counter] dec.n == old(dec.n) + total\n")
+		}
+		out.WriteString("//@ modifies dec, v\n//@ end\n\n")
 	}
 	for _, fn := range []string{"encode", "encodeRaw"} {
 		hdr := "\nfunc (enc *Encoder) " + fn + "(v interface{}) (err error) {"
@@ -152,14 +180,21 @@ package %s
 				out.WriteString("//@ option index-panics-allowed\n")
 			}
 			out.WriteString("//@ ghost failed = false\n")
-			out.WriteString(streamCaptures(sv.calls))
+			if streamCounter(sv.label) {
+				out.WriteString("//@ requires 0 <= enc.n && enc.n <= 4611686018427387904\n//@ ghost total = 0\n")
+			}
+			out.WriteString(streamCaptures(sv.calls, streamCounter(sv.label)))
 			if strings.Contains(sv.label, "point") {
 				// what is written is what the point's own encoder returned
 				size := "len(resultof_" + bytesFn + ")"
 				fmt.Fprintf(&out, "//@ cut before call io.Writer.Write #*\n//@ + invariant[bytes-of-the-point] called(%s) && len(callarg1) == %s && forall(j, 0, %s, callarg1[j] == resultof_%s[j])\n", bytesFn, size, size, bytesFn)
 			}
 			out.WriteString(streamLoops(n))
-			out.WriteString("//@ ensures[no-hidden-error] isnil(err) ==> !failed\n//@ modifies enc\n//@ end\n\n")
+			out.WriteString("//@ ensures[no-hidden-error] isnil(err) ==> !failed\n")
+			if streamCounter(sv.label) {
+				out.WriteString("//@ ensures[byte-counter] enc.n == old(enc.n) + total\n")
+			}
+			out.WriteString("//@ modifies enc\n//@ end\n\n")
 		}
 	}
 	return out.String()
